@@ -1284,6 +1284,11 @@ def transform(fn, proceed, to_instrument=True, set_conformer=True):
         # and returns the function that interests us.
         factory = glb.pop("#WRAP")
         wrapped = factory(*[None for _ in fn.__closure__])
+        # `wrapped` shares its code object with the function we return. If
+        # the closure refers to itself it is kept alive by a reference cycle:
+        # it must not be mistaken for the real function when an absolute
+        # reference is resolved
+        wrapped.__ptera_discard__ = True
         if wrapped.__code__.co_freevars == fn.__code__.co_freevars:
             # Share the cells of the original function, so that the new one
             # sees (and, with nonlocal, makes) later changes to the variables
